@@ -4,7 +4,8 @@ naming the types".
     from props_c16 import UNITS, GENERATORS
 
 UNITS       one KUnit per Kani harness:
-              960  c16_<op>_<lhs kind>_<rhs kind>   eval_matrix.rs (GENERATED)  eval::apply_binary_operation
+              240  c16_<op>_<lhs kind>_x_<scalar|heap>  eval_matrix.rs (GENERATED)  eval::apply_binary_operation
+                   (4 rhs cells each: 15 operators x 8 lhs kinds x 8 rhs kinds = 960 cells)
                32  c16_to_<bool|i64|index|str>_<kind>  eval_coerce.rs            eval::eval_expr_to_*
                 8  c16_typename_<kind>              typefn_names.rs             render_type x2, any_type
 GENERATORS  scripts the driver must run before building, so that generated harness files are fresh.
@@ -126,34 +127,57 @@ def matrix_judge(op, sym, lk, rk):
     return judge
 
 
-def matrix_replay(op, sym, lk, rk):
+def matrix_replay(op, sym, lk, rks):
+    """A harness covers 4 rhs cells.  The replay runs the script of every cell of the harness on the
+    real binary (payloads from the counterexample where Kani gave them) and hands back the first cell
+    whose outcome contradicts the property -- or the first cell if none does."""
     def mk(values):
-        return matrix_script(sym, lk, rk, values.get("a"), values.get("b")), matrix_judge(op, sym, lk, rk)
+        cells = []
+        for i, rk in enumerate(rks):
+            try:
+                script = matrix_script(sym, lk, rk, values.get(f"a{i}"), values.get(f"b{i}"))
+            except ValueError:
+                script = matrix_script(sym, lk, rk)      # payload has no literal: default payload
+            cells.append((script, matrix_judge(op, sym, lk, rk)))
+        try:
+            from common import build_real_binary, run_script
+            binary = build_real_binary()
+            for script, judge in cells:
+                rc, so, se = run_script(binary, script, name="c16-probe.sd")
+                if judge(rc, so, se):
+                    return script, judge
+        except Exception:      # no binary: fall through, the engine reports its own failure to build
+            pass
+        return cells[0]
     return mk
 
 
-def matrix_kind(op, lk, rk):
-    dom = gen_matrix.domain(op, lk, rk)
+def matrix_kind(op, lk, rks):
     scalar = ("null", "bool", "int")
     if STRICT_BOUNDS:
-        return "proof" if (lk in scalar and rk in scalar) else "bounded"
-    content_dependent = dom is not None and op in ("Sum", "Eq", "Ne") and lk in ("string", "list", "object")
+        return "proof" if (lk in scalar and all(rk in scalar for rk in rks)) else "bounded"
+    # cells whose documented result depends on the *contents* of the operands
+    content_dependent = any(
+        gen_matrix.domain(op, lk, rk) is not None and op in ("Sum", "Eq", "Ne") and lk in ("string", "list", "object")
+        for rk in rks)
     return "bounded" if content_dependent else "proof"
 
 
 def matrix_units():
     us = []
-    for (optag, op, sym, lk, rk) in gen_matrix.cells():
-        dom = gen_matrix.domain(op, lk, rk)
-        kind = matrix_kind(op, lk, rk)
+    for (optag, op, sym, lk, group, rks) in gen_matrix.harnesses():
+        kind = matrix_kind(op, lk, rks)
+        descr = []
+        for rk in rks:
+            dom = gen_matrix.domain(op, lk, rk)
+            descr.append(f"{lk} {sym} {rk}: " + (f"in domain -> {dom}" if dom else "type diagnostic"))
         us.append(KUnit(
-            gen_matrix.harness_name(optag, lk, rk), "eval_matrix", EVAL,
-            [f"eval::apply_binary_operation ({op}: {lk} {sym} {rk}, "
-             f"{'in domain -> ' + dom if dom else 'out of domain -> type diagnostic'})"],
+            gen_matrix.harness_name(optag, lk, group), "eval_matrix", EVAL,
+            [f"eval::apply_binary_operation ({op}; " + "; ".join(descr) + ")"],
             kind=kind,
             bound=(SHAPES if kind == "bounded" else None),
-            inputs=gen_matrix.inputs_for(lk, rk),
-            replay=matrix_replay(op, sym, lk, rk),
+            inputs=gen_matrix.inputs_for(lk, rks),
+            replay=matrix_replay(op, sym, lk, rks),
             note=("operand kinds concrete, scalar payloads full-domain symbolic; non-scalar operands are "
                   "represented by " + SHAPES),
         ))
@@ -280,7 +304,14 @@ def self_test(binary):
     (unit, reason) the judges object to.  On a correct interpreter this list is empty."""
     from common import run_script
     bad = []
-    for u in UNITS:
+    for (optag, op, sym, lk, group, rks) in gen_matrix.harnesses():
+        for rk in rks:
+            script, judge = matrix_script(sym, lk, rk), matrix_judge(op, sym, lk, rk)
+            rc, so, se = run_script(binary, script, name="c16-selftest.sd")
+            why = judge(rc, so, se)
+            if why:
+                bad.append((gen_matrix.harness_name(optag, lk, group), why))
+    for u in COERCE_UNITS + TYPENAME_UNITS:
         script, judge = u.replay({})
         rc, so, se = run_script(binary, script, name="c16-selftest.sd")
         why = judge(rc, so, se)
